@@ -30,9 +30,11 @@ Definition c_threshold : Z := Z.of_nat mw_threshold.
 Definition c_min_len : Z := Z.of_nat mw_min_len.
 Definition c_max_len : Z := Z.of_nat mw_max_len.
 
-Definition parse_c : mwmap -> str -> presult :=
-  parse c_isalpha c_isdigit c_isupper c_lower c_kbs kb_false_positive_words c_min_run tld_list
+Definition parse_gen (aligned : bool) : mwmap -> str -> presult :=
+  parse c_isalpha c_isdigit c_isupper c_lower aligned c_kbs kb_false_positive_words c_min_run tld_list
         year_prefixes context_strings c_threshold c_min_len c_max_len.
+(* the pipeline as the current source has it *)
+Definition parse_c : mwmap -> str -> presult := parse_gen seg_lower_aligned.
 Definition train_c : mwmap -> bool -> str -> mwmap :=
   train c_isalpha c_lower c_threshold c_min_len c_max_len.
 Definition mwparse_c : mwmap -> str -> option (bool * list str) :=
